@@ -88,7 +88,14 @@ func vHarness_C01_call() {
 	t1, t2 := c01TextNode(s1), c01TextNode(s2+mid+s5)
 	action := &parse.ActionNode{NodeType: parse.NodeAction, Pipe: c01DotPipe()}
 	callY := &parse.TemplateNode{NodeType: parse.NodeTemplate, Name: "y", Pipe: c01DotPipe()}
-	mainTree := &parse.Tree{Name: "main", Root: &parse.ListNode{NodeType: parse.NodeList, Nodes: []parse.Node{t0, callY, t3, action, t4}}}
+	mainNodes := []parse.Node{t0, callY, t3, action, t4}
+	if vParam("twice") == 1 {
+		// a second call site of the same helper from the same start context (it takes the
+		// "already escaped" path of escapeTree): T0 {{template "y"}} T3 {{template "y"}} {{.}} T4
+		callY2 := &parse.TemplateNode{NodeType: parse.NodeTemplate, Name: "y", Pipe: c01DotPipe()}
+		mainNodes = []parse.Node{t0, callY, t3, callY2, action, t4}
+	}
+	mainTree := &parse.Tree{Name: "main", Root: &parse.ListNode{NodeType: parse.NodeList, Nodes: mainNodes}}
 	var yNodes []parse.Node
 	if vParam("rec") == 1 {
 		inner := &parse.TemplateNode{NodeType: parse.NodeTemplate, Name: "y", Pipe: c01DotPipe()}
